@@ -10,7 +10,10 @@ HUGE = 1000000
 # name -> (rank, ((lo, hi), ...))
 ARRAYS = {"a": ((1, 10),), "b": ((1, 10),), "c": ((0, 9),), "d": ((3, 12),),
           "v": ((1, 4),), "r": ((1, 4),), "w": ((0, 3),), "u": ((2, 5),),
-          "m": ((1, 4), (1, 4)), "q": ((0, 3), (2, 5)), "p2": ((1, 4), (1, 4))}
+          "m": ((1, 4), (1, 4)), "q": ((0, 3), (2, 5)), "p2": ((1, 4), (1, 4)),
+          # per-dimension DIFFERENT lower bounds; e2's first lower bound equals that of v, r (and m, p2)
+          "e2": ((1, 4), (0, 3)), "t3": ((1, 3), (1, 4), (2, 5))}
+GEN_ARRAYS = [a for a in ARRAYS if len(ARRAYS[a]) <= 2]      # arrays the generic generators draw from (MiniF: rank <= 2)
 SCALARS = ["x", "y", "z"]
 INTS = ["n", "k"]
 
@@ -24,15 +27,20 @@ def decl(name):
 def program(params, stmts):
     """params: dict with per-array (mul, add, mod, off), scalar values, n, k"""
     lines = ["program p"] + [decl(a) for a in ARRAYS]
-    lines += ["  real :: x, y, z", "  integer :: n, k, i1, i2"]
+    lines += ["  real :: x, y, z", "  integer :: n, k, i1, i2, i3"]
     for a, dims in ARRAYS.items():
-        mu, ad, mo, of = params["arr"][a]
+        mu, ad, mo, of = params["arr"].get(a, (2, 1, 7, 2))
         if len(dims) == 1:
             lines += [f"  do i1 = {dims[0][0]}, {dims[0][1]}",
                       f"    {a}(i1) = mod((i1 + 5) * {mu} + {ad}, {mo}) - {of}", "  enddo"]
-        else:
+        elif len(dims) == 2:
             lines += [f"  do i2 = {dims[1][0]}, {dims[1][1]}", f"    do i1 = {dims[0][0]}, {dims[0][1]}",
                       f"      {a}(i1, i2) = mod((i1 + 3) * {mu} + (i2 + 2) * {ad}, {mo}) - {of}", "    enddo", "  enddo"]
+        else:
+            lines += [f"  do i3 = {dims[2][0]}, {dims[2][1]}", f"  do i2 = {dims[1][0]}, {dims[1][1]}",
+                      f"    do i1 = {dims[0][0]}, {dims[0][1]}",
+                      f"      {a}(i1, i2, i3) = mod((i1 + 3) * {mu} + (i2 + 2) * {ad} + i3 * 3, {mo}) - {of}",
+                      "    enddo", "  enddo", "  enddo"]
     for s in SCALARS:
         lines.append(f"  {s} = {params['sc'][s]}")
     lines += [f"  n = {params['n']}", f"  k = {params['k']}"]
@@ -66,7 +74,7 @@ def program_multi(params, stmt_lists):
 def _init_lines(params):
     n = 0
     for a, dims in ARRAYS.items():
-        n += 3 if len(dims) == 1 else 5
+        n += {1: 3, 2: 5, 3: 7}[len(dims)]
     return n + len(SCALARS) + 2
 
 
